@@ -2,7 +2,7 @@
    encode the observation.  [run] is what the extracted CLI calls; [judge] applies the
    executable property predicates of Spec.v to an observation made on the IMPLEMENTATION. *)
 From Coq Require Import List Ascii String ZArith Bool.
-From Model Require Import Bytes Wire Glob StaticRoute RoundRobin Pins Resolver SendFault Spec.
+From Model Require Import Bytes Wire Glob StaticRoute RoundRobin Pins Resolver SendFault Codec Spec SpecC14.
 Import ListNotations.
 
 Definition decode_error : list bytes := [s2b "decode-error"].
@@ -158,8 +158,23 @@ Definition run (comp : bytes) (args : list bytes) : list bytes :=
   else if beq comp (s2b "pins") then run_pins args
   else if beq comp (s2b "resolver") then run_resolver args
   else if beq comp (s2b "sendfault") then run_sendfault args
+  else if beq comp (s2b "codec") then run_codec args
+  else if beq comp (s2b "codecgen") then run_codecgen args
   else [s2b "unknown-component"].
+
+(* codec: kind text nexpected expected.. then the observation *)
+Definition judge_codec (args : list bytes) : list bytes :=
+  match (dlet _ := d_bytes in dlet _ := d_bytes in d_list d_bytes) args with
+  | Some ([e], obs) =>
+      (* known-finding stream: only the host the text denotes is demanded *)
+      if has_prefix (s2b "host=") e
+      then ok_tok (match nth_opt obs 5 with Some h => beq h (skipn 5 e) | None => false end)
+      else ok_tok (judge_C14 [e] obs)
+  | Some (expected, obs) => ok_tok (judge_C14 expected obs)
+  | None => decode_error
+  end.
 
 Definition judge (comp : bytes) (args : list bytes) : list bytes :=
   if beq comp (s2b "findroute") then judge_findroute args
+  else if beq comp (s2b "codec") then judge_codec args
   else [s2b "unknown-component"].
